@@ -2,7 +2,7 @@
 // process-wide node store and reports, after EVERY step, the sizes of the two unique tables (relative to the
 // sizes at the start of the case) and the value of every live object on all 2^NV total assignments.
 // case:   c18 <u|s> <NV> { C h asgn v d | K h v | Y h g | A h g | U h f a | B h f a b | T h f a b c
-//                          | E h asgn off a | X h asgn off a | D h }*
+//                          | E h asgn off a | X h asgn off a | D h | Z h n }*     (Z: n temporary copies of h made and destroyed)
 // output: one word per step  <dLeaf>:<dInternal>:<h>=<values>,<h>=<values>...   ("-" when no object is live)
 //         then  END <dLeaf>:<dInternal>   after all remaining objects have been destroyed (ascending h)
 // Every case starts after the previous case destroyed all its objects; a case that leaks shows it in END.
@@ -34,6 +34,12 @@ template <class D> std::string runCase(Toks& t) {
 		else if (w == "E") { std::string as = t.word(); size_t off = t.num(); unsigned a = t.num(); fresh(h); M& x = live(a); hs[h].reset(new M(x.ExtendWith(mkAsgn(as), off))); }
 		else if (w == "X") { std::string as = t.word(); size_t off = t.num(); unsigned a = t.num(); fresh(h); M& x = live(a); hs[h].reset(new M(x.GetMtbddForPrefix(mkAsgn(as), off))); }
 		else if (w == "D") { live(h); hs.erase(h); }
+		else if (w == "Z") {     // h = a live handle: n temporary copies of it are made and destroyed again (in creation order); no lasting effect
+			unsigned long n = t.num(); M& src = live(h);
+			std::vector<std::unique_ptr<M>> tmp; tmp.reserve(n);
+			for (unsigned long i = 0; i < n; ++i) tmp.emplace_back(new M(src));
+			for (unsigned long i = 0; i < n; ++i) tmp[i].reset();
+		}
 		else throw std::runtime_error("driver: unknown op " + w);
 		os << (firstw ? "" : " ") << (leafTableSize<D>() - l0) << ':' << (intTableSize<D>() - i0) << ':';
 		firstw = false;
